@@ -507,7 +507,7 @@ class Hint:
 class Fn:
     def __init__(self, rel, impl, name, ret=None, requires=None, ensures=None, loops=None, hints=None,
                  rewrites=None, sig=None, props=None, external_body=False, no_unwind=False,
-                 params=None, generics=None, where=None, ret_type=None, emit_name=None, decreases=None, vis=None, bind_tail=False):
+                 params=None, generics=None, where=None, ret_type=None, emit_name=None, decreases=None, vis=None, bind_tail=False, attrs=None):
         self.rel, self.impl, self.name = rel, impl, name
         self.ret = ret
         self.requires, self.ensures = clauses(requires), clauses(ensures)
@@ -522,6 +522,7 @@ class Fn:
         self.vis = vis
         self.no_unwind = no_unwind
         self.bind_tail = bind_tail
+        self.attrs = attrs or []  # verifier attributes that only affect proof search (e.g. loop_isolation)
 
 
 class Unit:
@@ -697,6 +698,8 @@ class Emitter:
         if f.vis is not None:
             vis = f.vis
         start = len(self.lines) + 1
+        for a in f.attrs:
+            self.emit("    " + a)
         if f.external_body:
             self.emit("    #[verifier::external_body]")
         head = f"    {vis} {'unsafe ' if ft.unsafe else ''}fn {f.emit_name or f.name}{generics}({params})"
